@@ -7,6 +7,8 @@ Inductive case :=
          (tb : optab)                                 (* registered spellings, read from the implementation's field wrappers *)
          (toks : list (tok * option path))            (* what was written, and the destination it denotes (spec side) *)
          (loose : bool)                               (* some option was written as an abbreviation of what it denotes *)
+         (objannot : bool)                            (* some entry is a function annotated with the class OBJECT (`-> A`): the
+                                                         model reads it as the class only if the library does *)
          (obs : res (val * list (path * string)))     (* value at the destination + namespace.subgroups, or how it ended *)
          (reg : option (list path))                   (* destinations of all field wrappers after a completed set-up *)
          (stable : bool)                              (* no subgroup option changed its spelling between rounds *)
@@ -24,16 +26,17 @@ Definition out_eqb (a b : res (val * list (path * string))) : bool :=
 
 Definition in_scope (c : case) : bool :=
   match c with
-  | SgCase tree _ tb _ _ _ _ _ _ => declared_dc tree && wf_dc tree && str_nodupb (map fst tb)
+  | SgCase tree _ tb _ _ _ _ _ _ _ => declared_dc tree && wf_dc tree && str_nodupb (map fst tb)
   | CmdCase _ _ _ ptab stabs _ _ _ _ _ => str_nodupb (map fst ptab) && forallb (fun s => str_nodupb (map fst (snd s))) stabs
   end.
 
 Definition model_ok (c : case) : bool :=
   match c with
-  | SgCase tree root tb toks _ obs reg stable extra =>
+  | SgCase tree root tb toks _ objannot obs reg stable extra =>
       let argv := map fst toks in
       let fuel := depth_dc tree in                       (* exactly the number of rounds C07_fuel promises *)
       stable
+      && (negb objannot || callable_type_from_object_annotation_gen)
       && match extra with [] => true | _ => false end
       && out_eqb (parse_gen fuel tb argv [root] tree) obs
       && match reg with
@@ -53,7 +56,7 @@ Definition obs_cmd (o : res val) : res (val * list (path * string)) :=
 
 Definition spec_ok (c : case) : bool :=
   match c with
-  | SgCase tree root tb toks loose obs _ stable extra =>
+  | SgCase tree root tb toks loose _ obs _ stable extra =>
       existsb (fun t => reads_as_other tb (fst (fst t)) (snd t)) toks          (* the property is silent *)
       || (stable && match extra with [] => true | _ => false end
           && expect_allows (relax loose (spec tree [root] (map (fun t => (snd t, snd (fst t))) toks))) obs)
